@@ -11,7 +11,7 @@ git -C /repo worktree add -q --detach $W HEAD || exit 2
 echo "== confirm $ID at $(git -C /repo rev-parse --short HEAD) $(date -u +%FT%TZ)"
 cd $W
 cmake -G Ninja -B _build_clean -DCMAKE_BUILD_TYPE=Release >/dev/null && cmake --build _build_clean -j6 >/dev/null 2>&1 && echo "clean build ok"
-git apply $V/seeded/$ID/patch.diff && echo "patch applied"
+(git apply $V/seeded/$ID/patch.diff || patch -p1 -s < $V/seeded/$ID/patch.diff) && echo "patch applied"
 cmake -G Ninja -B _build -DCMAKE_BUILD_TYPE=Release >/dev/null && cmake --build _build -j6 >/dev/null 2>&1 && echo "mutated build ok"
 ctest --test-dir _build -j6 --timeout 900 2>&1 | tail -n 4
 cp -r $V/seeded/$ID/demo $W/demo
